@@ -130,3 +130,71 @@ def enum_alias(xs: list[fp.Real]):
     return acc
 
 ALL += [fuse_while, fuse_clobber, zip_alias, enum_alias]
+
+# ---------------------------------------------------------------------------------------------------------
+# shapes added with the xgen upgrade
+
+@fp.fpy
+def chunked(xs: list[fp.Real], k: fp.Real):
+    acc = k
+    w = 1
+    for x in xs:
+        acc = acc * 2 + x * w
+        w = w + 1
+        k = k + 1
+    return (acc, k)
+
+@fp.fpy
+def lowprec_weighted(xs: list[fp.Real]):
+    with fp.FP8P3:
+        s = 0
+        w = 1
+        for x in xs:
+            with fp.REAL:
+                s = s + x * w
+                w = w + 1
+    return s
+
+@fp.fpy
+def lowprec_call_ctx(xs: list[fp.Real], ys: list[fp.Real]):
+    s = 0
+    w = 1
+    for x, y in zip(xs, ys):
+        with fp.INTEGER:
+            s = s + w * 3
+            w = w + 1
+        s = s + x * y
+    return s
+
+@fp.fpy
+def enum_deep_shadow(xs: list[fp.Real], ns: list[tuple[tuple[fp.Real, fp.Real], fp.Real]]):
+    return [len([1 for ((i, _), _) in ns]) + sum([x for (_, x), i in ns]) + i * x for i, x in enumerate(xs)]
+
+@fp.fpy
+def named_like_temps(t: list[fp.Real], n: fp.Real):
+    i = n
+    m = 0
+    for j in t:
+        m = m * 2 + j + i
+        i = i + 1
+    return (m, i, n)
+
+@fp.fpy
+def bound_moves(xs: list[fp.Real]):
+    n = len(xs)
+    acc = 0
+    for i in range(n):
+        acc = acc * 3 + xs[i]
+        n = n - 1
+    return (acc, n)
+
+@fp.fpy
+def any_shadow_after(xs: list[fp.Real], x: fp.Real):
+    b = all([x >= 0 for x in xs]) or any([x > 100 for x in xs])
+    return (b, x)
+
+ALL += [chunked, lowprec_weighted, lowprec_call_ctx, enum_deep_shadow, named_like_temps, bound_moves, any_shadow_after]
+META = {'chunked': {'kinds': ['L', 'I'], 'factors': ['k', 'k + 1'], 'assigned': ['k', 'acc', 'w', 'x'], 'loops': ['len(xs)'], 'quadratic': False},
+        'lowprec_weighted': {'loops': ['len(xs)'], 'assigned': [], 'quadratic': False}, 'lowprec_call_ctx': {'quadratic': False, 'ctxs': [None, 'fp.FP8P4', 'fp.BF16']},
+        'enum_deep_shadow': {'kinds': ['L', 'N']}, 'named_like_temps': {'kinds': ['L', 'R'], 'quadratic': False}, 'total': {'loops': ['len(xs)'], 'assigned': [], 'quadratic': False},
+        'with_in_loop': {'quadratic': False}, 'enum_sum': {'quadratic': False}, 'zip_dot': {'quadratic': False}}
